@@ -22,7 +22,8 @@ CFG = dict(
                  "timed waits longer than 200 ms are shortened by legal spurious wake-ups (POSIX allows them)"],
     min_counts={"any": {"cancel_far_future_strict": 20, "release_right_after_schedule": 20, "tasks_pending_at_release": 20,
                         "cancel_from_task_on_scheduler_thread": 10, "final_release_by_client": 20,
-                        "cancel_returned_before_task_time_strict": 50}},
+                        "cancel_returned_before_task_time_strict": 50,
+                        "release_right_after_last_task_returned_scheduler_empty": 20}},
 )
 
 META = dict(
